@@ -3,7 +3,7 @@
    arguments and ANY function standing for scipy.special.expn: the model takes the two values E2(gamma_i tau) as
    inputs, and this lemma shows they enter the code's formula exactly where the model puts them. *)
 From Coq Require Import Reals Lra.
-From TV Require Import Num ListNum Model_C12.
+From TV Require Import Num ListNum Model_C12 Proofs_C12.
 Local Open Scope R_scope.
 (* GENERATED *)
 
@@ -12,3 +12,19 @@ Lemma tie_guillot_T4 : forall (expn : R -> R -> R) (kv1 kir kv2 P grav Tint Tirr
   @guillot_T4 R RTNum kir kv1 kv2 alpha Tirr Tint grav P
      (expn 2 (kv1 / kir * (kir * P / grav))) (expn 2 (kv2 / kir * (kir * P / grav))).
 Proof. intros. unfold gen_guillot_T4, gen_eta, guillot_T4, eta. rnum. reflexivity. Qed.
+
+
+(* Consequently the T^4 the code computes is positive (so its fourth root is a finite positive temperature) for physical
+   parameters, for ANY function expn that satisfies the classical bound 0 <= E2(x) <= exp(-x)/(1+x) at the two arguments
+   the code passes to it: C12_guillot_positive carried over to the regenerated source. *)
+Lemma tie_code_guillot_positive : forall (expn : R -> R -> R) (kv1 kir kv2 P grav Tint Tirr alpha : R),
+  0 < kir -> 0 < kv1 -> 0 < kv2 -> 0 < grav -> 0 <= P -> 0 <= alpha <= 1 -> 0 <= Tirr -> 0 <= Tint -> 0 < Tirr + Tint ->
+  (forall g, g = kv1 / kir * (kir * P / grav) \/ g = kv2 / kir * (kir * P / grav) ->
+             0 <= expn 2 g /\ expn 2 g * (1 + g) <= exp (- g)) ->
+  0 < gen_guillot_T4 expn grav kv1 kir kv2 P Tint Tirr alpha.
+Proof.
+  intros expn kv1 kir kv2 P grav Tint Tirr alpha H1 H2 H3 H4 H5 H6 H7 H8 H9 HE.
+  rewrite tie_guillot_T4.
+  destruct (HE _ (or_introl eq_refl)) as [Ha Hb]. destruct (HE _ (or_intror eq_refl)) as [Hc Hd].
+  apply guillot_T4_positive; assumption.
+Qed.
